@@ -826,6 +826,7 @@ def oracle(sim: Sim, plan: dict) -> list[dict]:
             expect = "tie"
         else:
             expect = "return"
+        sim.probe("expect:" + expect)
         if expect == "return":
             if sc_end[4] != "sc_return":
                 key = "spurious_timeout" if sc_end[5].get("cls") == "TimeoutError" else "unexpected_failure"
@@ -953,6 +954,7 @@ def oracle(sim: Sim, plan: dict) -> list[dict]:
                         v("C06.value", "factory_product", f"{where} returned {d['val']}, expected the product of factory {p['rid']} ({want_val})")
                 elif d["val"] != want_val:
                     v("C06.value", "object", f"{where} returned {d['val']}, the published object is {want_val}")
+                sim.probe("wait_already_published" if w["had"] else "wait_released_by_publication")
                 if w["had"]:
                     if r[1] != w["step"] and not p["fac"]:
                         v("C06.late_wakeup", "present_but_waited", f"{where}: the resource was already there but the call took scheduler steps")
@@ -1236,6 +1238,9 @@ class G:
                         spec["td"] = True
                     if rng.random() < 0.15:
                         spec["desc"] = "d"
+                    if self.prop == "C06" and rng.random() < 0.5:
+                        # publish late, so that waiters are usually already parked
+                        acts.append(["p", rng.choice((0, 1, 2, 3)), rng.choice((0.0, 0.25, 0.5, 1.0, 2.0))])
                     acts.append(["pub", spec])
                     fn = final_name(n, spec, phase)
                     here.append((spec["t"], fn, bool(spec.get("fac")), spec.get("fdur")))
@@ -1264,6 +1269,33 @@ class G:
             avail.extend(here)
 
 
+def _forward_waits(g: "G", tree: dict, rng: random.Random) -> None:
+    """Waits on resources published *later* in the generation order (the waiter is parked
+    first).  Kept only if the reference timeline says the plan still completes, i.e. the
+    dependency graph stays acyclic."""
+    nodes = list(walk(tree))
+    pubs = []
+    for path, n in nodes:
+        for ph in ("prepare", "start"):
+            for a in n.get(ph) or ():
+                if a[0] == "pub":
+                    pubs.append((path, n, ph, a[1]))
+    phases = [(path, n, ph) for path, n in nodes for ph in ("prepare", "start") if n.get(ph) is not None]
+    if not pubs or not phases:
+        return
+    for _ in range(rng.randint(1, 3)):
+        path, n, ph = rng.choice(phases)
+        ppath, pn, pph, spec = rng.choice(pubs)
+        if ppath == path:
+            continue
+        g.nw += 1
+        w = ["wait", {"wid": f"w{g.nw}", "t": spec["t"], "name": final_name(pn, spec, pph)}]
+        pos = rng.randint(0, min(1, len(n[ph])))
+        n[ph].insert(pos, w)
+        if model_timeline({"tree": tree})["finish"] is None:
+            n[ph].remove(w)
+
+
 def gen(rng: random.Random, tier: str, prop: str) -> dict:
     g = G(rng, tier, prop)
     backend = "asyncio" if rng.random() < 0.6 else "trio"
@@ -1271,6 +1303,8 @@ def gen(rng: random.Random, tier: str, prop: str) -> dict:
     tree["root_kw"] = rkw(rng)
     tree["root_tf"] = pick(rng, {"class": 3, "ref": 1, "ep": 1})
     g.fill(tree)
+    if prop in ("C06", "C05") and rng.random() < (0.7 if prop == "C06" else 0.3):
+        _forward_waits(g, tree, rng)
     plan: dict[str, Any] = {
         "v": 1,
         "world": NAME,
